@@ -174,6 +174,10 @@ def build_schema(desc: dict) -> dict:
             params.append({"name": "q", "in": "query", "required": True, "schema": {"type": "integer", "minimum": 0, "maximum": 1000}})
         if beh == "invalid":
             params.append({"name": "broken", "in": "query", "schema": {"type": "wrong-type-name"}})
+        if beh == "weird":
+            import datetime
+
+            params.append({"name": "since", "in": "query", "schema": {"type": "string", "format": "date", "example": datetime.date(2020, 1, 1)}})
         if params:
             op["parameters"] = params
         paths["/o%d" % i] = {"get": op}
@@ -210,8 +214,9 @@ def run_one(desc: dict, controller: "Recorder | None" = None) -> dict:
     enable_links()  # see compat.py: restores link routing on the installed Hypothesis
 
     unit_phase.WORKER_TIMEOUT = 0.02  # harness process only: shorter polling, same logic
-    threading.excepthook = lambda args: None  # a dying worker thread is an observation (WEXIT line), not console noise
     rec = controller if controller is not None else Recorder(fault=desc.get("fault"), ctrlc_at=desc.get("ctrlc_at", 0))
+    # a worker / state-machine thread dying with an uncaught exception is an observation (TDEATH line), not console noise
+    threading.excepthook = lambda args: rec.emit({"e": "TDEATH", "err": getattr(args.exc_type, "__name__", "?")})
     nops = len(desc["ops"])
     extra_ops = 2 if desc.get("links") else 0
     for i in range(1, nops + 1):
@@ -372,6 +377,7 @@ def run_one(desc: dict, controller: "Recorder | None" = None) -> dict:
            "enabled": [p in desc["phases"] for p in PHASES], "steps": desc.get("step_count", 3),
            "rateL": int(desc.get("rate") or 0), "rateW": 1000,
            "hasfault": desc.get("fault") is not None, "faultfired": rec.fault_fired,
-           "invalid": [i for i, b in enumerate(desc["ops"], 1) if b == "invalid"], "wall_ms": int((time.time() - t0) * 1000),
+           "invalid": [i for i, b in enumerate(desc["ops"], 1) if b == "invalid"],
+           "weird": [i for i, b in enumerate(desc["ops"], 1) if b == "weird"], "wall_ms": int((time.time() - t0) * 1000),
            "diverged": getattr(rec, "diverged", ""), "followed": getattr(rec, "followed", 0)}
     return {"hdr": hdr, "lines": lines, "desc": desc}
